@@ -141,3 +141,71 @@ def _(self: PROC(False), data_blocks: Union[ListOf(Bytes(256), 1), ListOf(Bytes(
     sample_with(lambda rnd: dict(_sample_proc(rnd), data_blocks=[bytes(rnd.getrandbits(8) for _ in range(256)) for _ in range(rnd.choice([1, 2, 3]))]) and
                 {k: v for k, v in dict(_sample_proc(rnd), data_blocks=[bytes(rnd.getrandbits(8) for _ in range(256)) for _ in range(rnd.choice([1, 2, 3]))]).items()
                  if k in ("self", "data_blocks")})
+
+
+# ----------------------------------------------------------------------------------------------------------------------
+# Commands as the loader reads them: 16-byte header (tag 0x55AAAA55, address, length, command code), then the command's own words / data
+# ----------------------------------------------------------------------------------------------------------------------
+from spsdk.sbfile.sb31.commands import (BaseCmd, CmdCopy, CmdErase, CmdFillMemory, CmdLoad, CmdLoadBase, CmdLoadKeyBlob, EnumCmdTag)  # noqa: E402
+from struct import unpack_from as _unp  # noqa: E402
+
+inline("spsdk.sbfile.sb31.commands:BaseCmd.address", "spsdk.sbfile.sb31.commands:BaseCmd.length", "spsdk.sbfile.sb31.commands:CmdLoadKeyBlob.length")
+
+
+def words(blob, pos, n):
+    return _unp("<%dL" % n, blob, pos)
+
+
+def hdr_ok(blob, address, length, code):
+    return words(blob, 0, 4) == (0x55AAAA55, address, length, code)
+
+
+@contract("spsdk.sbfile.sb31.commands:BaseCmd.export")
+def _(self: SubObj(BaseCmd, _address=U32, _length=U32, cmd_tag=OneOf(EnumCmdTag.ERASE, EnumCmdTag.LOAD, EnumCmdTag.EXECUTE, EnumCmdTag.COPY, EnumCmdTag.FILL_MEMORY))) -> bytes:
+    ensures(len(result) == 16 and hdr_ok(result, self._address, self._length, self.cmd_tag.tag), label="tag-address-length-code")
+    pure()
+
+
+@contract("spsdk.sbfile.sb31.commands:CmdErase.export")
+def _(self: Obj(CmdErase, _address=U32, _length=U32, cmd_tag=Const(EnumCmdTag.ERASE), memory_id=U32)) -> bytes:
+    ensures(len(result) == 32 and hdr_ok(result, self._address, self._length, EnumCmdTag.ERASE.tag) and words(result, 16, 4) == (self.memory_id, 0, 0, 0),
+            label="erase-range-and-memory")
+    pure()
+    sample_with(lambda rnd: {"self": CmdErase(rnd.getrandbits(32), rnd.getrandbits(32), rnd.getrandbits(8))})
+
+
+@contract("spsdk.sbfile.sb31.commands:CmdCopy.export")
+def _(self: Obj(CmdCopy, _address=U32, _length=U32, cmd_tag=Const(EnumCmdTag.COPY), destination_address=U32, memory_id_from=U32, memory_id_to=U32)) -> bytes:
+    ensures(len(result) == 32 and hdr_ok(result, self._address, self._length, EnumCmdTag.COPY.tag)
+            and words(result, 16, 4) == (self.destination_address, self.memory_id_from, self.memory_id_to, 0), label="copy-source-destination-memories")
+    pure()
+    sample_with(lambda rnd: {"self": CmdCopy(rnd.getrandbits(32), rnd.getrandbits(32), rnd.getrandbits(32), rnd.getrandbits(4), rnd.getrandbits(4))})
+
+
+@contract("spsdk.sbfile.sb31.commands:CmdFillMemory.export")
+def _(self: Obj(CmdFillMemory, _address=U32, _length=U32, cmd_tag=Const(EnumCmdTag.FILL_MEMORY), pattern=U32)) -> bytes:
+    ensures(len(result) == 32 and hdr_ok(result, self._address, self._length, EnumCmdTag.FILL_MEMORY.tag) and words(result, 16, 4) == (self.pattern, 0, 0, 0),
+            label="fill-range-and-pattern")
+    pure()
+    sample_with(lambda rnd: {"self": CmdFillMemory(rnd.getrandbits(32), rnd.getrandbits(32), rnd.getrandbits(32))})
+
+
+@contract("spsdk.sbfile.sb31.commands:CmdLoadBase.export")
+def _(self: Obj(CmdLoad, _address=U32, _length=U32, cmd_tag=Const(EnumCmdTag.LOAD), memory_id=U32, data=Bytes(lo=0, hi=4096), HAS_MEMORY_ID_BLOCK=Const(True))) -> bytes:
+    requires(self._length == len(self.data))
+    let(n=len(self.data))
+    ensures(len(result) == 32 + (n + 15) // 16 * 16, label="header-memory-block-data-padded-to-16")
+    ensures(hdr_ok(result, self._address, n, EnumCmdTag.LOAD.tag) and words(result, 16, 4) == (self.memory_id, 0, 0, 0), label="load-address-length-memory")
+    ensures(result[32: 32 + n] == self.data and forall(32 + n, len(result), lambda k: result[k] == 0), label="data-as-given-then-zero-padding")
+    pure()
+    sample_with(lambda rnd: {"self": CmdLoad(rnd.getrandbits(32), bytes(rnd.getrandbits(8) for _ in range(rnd.choice([0, 1, 15, 16, 17, 100]))), rnd.getrandbits(4))})
+
+
+@contract("spsdk.sbfile.sb31.commands:CmdLoadKeyBlob.export")
+def _(self: Obj(CmdLoadKeyBlob, _address=U16, cmd_tag=Const(EnumCmdTag.LOAD_KEY_BLOB), key_wrap_id=U16, data=Bytes(lo=0, hi=512), plain_input=bool)) -> bytes:
+    let(n=len(self.data))
+    ensures(len(result) == 16 + (n + 15) // 16 * 16, label="header-data-padded-to-16")
+    ensures(_unp("<L2H2L", result, 0) == (0x55AAAA55, self._address, self.key_wrap_id, n, EnumCmdTag.LOAD_KEY_BLOB.tag), label="offset-wrapid-length-code")
+    ensures(result[16: 16 + n] == self.data and forall(16 + n, len(result), lambda k: result[k] == 0), label="blob-as-given-then-zero-padding")
+    pure()
+    sample_with(lambda rnd: {"self": CmdLoadKeyBlob(rnd.getrandbits(16), bytes(rnd.getrandbits(8) for _ in range(rnd.choice([0, 48, 50]))), rnd.choice([16, 17]))})
